@@ -953,6 +953,9 @@ pub fn check_c03_net(prog: &NetProgram, res: &NetResult, info: &mut RunInfo) {
         }
     }
     let mut expect: Vec<(usize, u32, u64)> = Vec::new(); // (module, beat index | uid, time); beats are tagged with bit 31
+    // a module whose handler panicked (caught by its stereotype) handles nothing any more; what it emitted before the panic
+    // in that handler was emitted
+    let mut dead = vec![false; prog.modules.len()];
     let mut guard = 0;
     let mut biggest_tie = 0usize;
     while !pend.is_empty() && guard < 100_000 {
@@ -971,10 +974,20 @@ pub fn check_c03_net(prog: &NetProgram, res: &NetResult, info: &mut RunInfo) {
             NEv::Exit { from, uid } => {
                 let hops = graph.walk(from);
                 let dest = hops.last().map_or(from, |h| h.0);
+                if dead[from.0] || dead[dest.0] {
+                    continue;
+                }
                 sched(&mut pend, instant, now, NEv::Data { m: dest.0, uid });
             }
-            NEv::Data { m, uid } => expect.push((m, uid, now)),
+            NEv::Data { m, uid } => {
+                if !dead[m] {
+                    expect.push((m, uid, now));
+                }
+            }
             NEv::Beat { m, i } => {
+                if dead[m] {
+                    continue;
+                }
                 expect.push((m, 0x8000_0000 | i as u32, now));
                 let spec = &prog.modules[m];
                 let mut buffer: Vec<(u64, NEv)> = Vec::new();
@@ -997,13 +1010,20 @@ pub fn check_c03_net(prog: &NetProgram, res: &NetResult, info: &mut RunInfo) {
                             if *delay_ns == 0 {
                                 let hops = graph.walk(from);
                                 let dest = hops.last().map_or(from, |h| h.0);
-                                buffer.push((now, NEv::Data { m: dest.0, uid }));
+                                if !dead[dest.0] {
+                                    buffer.push((now, NEv::Data { m: dest.0, uid }));
+                                }
                             } else {
                                 buffer.push((now + delay_ns, NEv::Exit { from, uid }));
                             }
                         }
                         Act::SelfMsg { delay_ns } => {
                             buffer.push((now + delay_ns, NEv::Data { m, uid: uid_of(m, i, ai, 0) }));
+                        }
+                        Act::Panic => {
+                            dead[m] = true;
+                            info.probe("handler_panicked_after_emitting");
+                            break;
                         }
                         _ => {}
                     }
@@ -1029,7 +1049,13 @@ pub fn check_c03_net(prog: &NetProgram, res: &NetResult, info: &mut RunInfo) {
     a.sort_unstable();
     b.sort_unstable();
     if a != b {
+        if dead.iter().any(|d| *d) {
+            info.probe("net_model_and_run_disagree_on_what_ran_after_a_panic");
+        }
         return;
+    }
+    if dead.iter().any(|d| *d) {
+        info.probe("tie_order_checked_after_a_caught_panic");
     }
     if let Some(pos) = got.iter().zip(expect.iter()).position(|(g, e)| g != e) {
         info.violate(Violation::new("C03", "tie-order-net", format!(
